@@ -87,6 +87,55 @@ fn laws(ctx: &mut Ctx) {
     let partials: Vec<PartialDef> = vec![("w".into(), Ok(vec![Node::Assign("x".into(), var("v"), vec![])])), ("q".into(), Ok(vec![text("q"), Node::Cond { c: Cond::Exist(var("x")), mode: true, thn: vec![out(var("x"))], els: None, elsif: false }]))];
     let parser = build_parser(&partials, Policy::Eager);
     const M: &str = "\u{27e6}E\u{27e7}";
+    // UNBOUND: a name nobody binds does not exist -- at top level and inside every kind of frame
+    // (loop, tablerow, include with and without arguments, conditional), also when the name is one
+    // that arrays and objects answer as a synthetic member (size / first / last)
+    {
+        let unames = ["size", "first", "last", "zz"];
+        let mut ps: Vec<PartialDef> = Vec::new();
+        for u in unames {
+            ps.push((format!("pr_{}", u), Ok(vec![out(var(u))])));
+            ps.push((format!("ex_{}", u), Ok(vec![Node::Cond { c: Cond::Exist(var(u)), mode: true, thn: vec![text("LEAK")], els: Some(vec![text("none")]), elsif: false }])));
+        }
+        let uparser = build_parser(&ps, Policy::Eager);
+        let mut d = Object::new();
+        d.insert("a".into(), Value::scalar("A"));
+        d.insert("arr".into(), Value::Array(vec![Value::scalar(7i64), Value::scalar(8i64)]));
+        let mut o = Object::new();
+        o.insert("k".into(), Value::scalar(1i64));
+        d.insert("obj".into(), Value::Object(o));
+        for u in unames {
+            for w in 0..8 {
+                for printing in [true, false] {
+                    let probe: Vec<Node> = if w >= 6 {
+                        vec![Node::Include(lit_s(&format!("{}_{}", if printing { "pr" } else { "ex" }, u)), if w == 7 { vec![("v".into(), lit_i(1))] } else { vec![] })]
+                    } else if printing {
+                        vec![out(var(u))]
+                    } else {
+                        vec![Node::Cond { c: Cond::Exist(var(u)), mode: true, thn: vec![text("LEAK")], els: Some(vec![text("none")]), elsif: false }]
+                    };
+                    let mut body = vec![text(M)];
+                    body.extend(probe);
+                    let t: Vec<Node> = match w {
+                        0 | 6 | 7 => body,
+                        1 => vec![Node::For { x: "i".into(), rng: RangeE::Counted(lit_i(1), lit_i(1)), limit: None, offset: None, rev: false, body, els: None }],
+                        2 => vec![Node::For { x: "i".into(), rng: RangeE::Arr(var("arr")), limit: Some(lit_i(1)), offset: None, rev: false, body, els: None }],
+                        3 => vec![Node::For { x: "i".into(), rng: RangeE::Arr(var("obj")), limit: None, offset: None, rev: false, body, els: None }],
+                        4 => vec![Node::TableRow { x: "i".into(), rng: RangeE::Counted(lit_i(1), lit_i(1)), cols: None, limit: None, offset: None, body }],
+                        _ => vec![Node::Assign("b".into(), lit_i(2), vec![]), Node::Cond { c: Cond::Exist(Expr::Lit(Value::scalar(true))), mode: true, thn: body, els: None, elsif: false }],
+                    };
+                    let obs = render_text(&uparser, &src_tmpl(&t), &d);
+                    let ok = match (&obs, printing) {
+                        (Obs::Err(_), true) => true,
+                        (Obs::Ok(s), false) => s.rfind(M).map(|p| s[p + M.len()..].starts_with("none")).unwrap_or(false),
+                        _ => false,
+                    };
+                    let k = if ok { "law".to_string() } else { format!("UNBOUND:{}", if printing { "want-error" } else { "want-absent" }) };
+                    ctx.emit(render_case("c04", &k, &t, &d, &ps, &obs));
+                }
+            }
+        }
+    }
     for i in 0..n {
         let x = names[g.rng.below(names.len())].to_string();
         let mut data = Object::new();
@@ -145,6 +194,16 @@ fn laws(ctx: &mut Ctx) {
             };
             let k = if ok { "law".to_string() } else { format!("SHADOW:want={}", crate::proto::hex(&expect)) };
             ctx.emit(render_case("c04", &k, &t, &d2, &partials, &obs));
+            // the failing form: printing such a sub-path is an error, never the caller's value
+            if !t.is_empty() {
+                let mut t2: Vec<Node> = t.iter().take_while(|n| !matches!(n, Node::Text(s) if s == M)).cloned().collect();
+                if t2.len() < t.len() {
+                    t2.push(out(path(&x, &["k"])));
+                    let obs2 = render_text(&parser, &src_tmpl(&t2), &d2);
+                    let k2 = if matches!(obs2, Obs::Err(_)) { "law".to_string() } else { "SHADOW:want-error".to_string() };
+                    ctx.emit(render_case("c04", &k2, &t2, &d2, &partials, &obs2));
+                }
+            }
             continue;
         }
         let (kind, t, expect): (&str, Vec<Node>, String) = match i % 3 {
